@@ -66,10 +66,34 @@ def c14Params : Handler := fun c => do
   let dyn ← getBool c "dynamic"
   pure (paramsJ (bucketParams lens nb B dyn))
 
-/-- case: {lens, nb, B, dynamic, drop, sort, orders: [[..]..]}; `orders[j]` = the sample order of
-the j-th epoch served. Reply: {"err": ..} (construction fails) or {"epochs": [{batches, rows, err,
-len}..]} where `rows` = each batch after the collate function's optional sort, `len` = the value
-`_get_batch_sampler_len` computes while the sampler stands at that epoch. -/
+def modeOf (s : String) : Except String PdtVerif.EpochSampler.Mode :=
+  match s with
+  | "raise" => pure .raise | "drop" => pure .drop | "uneven" => pure .uneven | "ignore" => pure .ignore
+  | _ => throw s!"unknown mode {s}"
+
+def opOf (j : Json) : Except String Op := do
+  match j with
+  | .str "serve" => pure .serve
+  | _ => do
+    let e ← getNat j "set"
+    pure (.setEpoch e)
+
+/-- The value `len(loader)` has before and after every `serve` of an operation sequence (a fold
+next to `Loader.exec`, which reports the batches). -/
+def lensAlong (perm : Nat → List Nat) : List Op → Loader → List (Nat × Except Err Nat × Except Err Nat)
+  | [], _ => []
+  | .serve :: ops, l =>
+    let l' := (l.serve perm).2
+    (l.epoch, l.len perm, l'.len perm) :: lensAlong perm ops l'
+  | .setEpoch e :: ops, l => lensAlong perm ops (l.setEpoch e)
+
+/-- case: {lens, nb, B, dynamic, drop, sort, cw, mode, dist: null | [rank, world], init_epoch,
+perms: [[epoch, [..ordering..]]..] (the whole-data-set ordering of every epoch that can be reached),
+ops: ["serve" | {"set": e}]..}. The sampler is C13's model (`EpochSampler.init/iter`), the loader
+object is `Loader` (`new`, `exec`, `len`). Reply: {"err": "ValueError"} (the sampler refuses the
+world size), {"err": ..} (bucket parameters fail) or {"serves": [{epoch, order, batches, rows, err,
+len, len_after}..], "final_epoch", "params"}; `rows` = each batch after the collate function's
+optional stable sort by length. -/
 def c14Loader : Handler := fun c => do
   let lens ← getNatList c "lens"
   let nb ← getNat c "nb"
@@ -77,19 +101,41 @@ def c14Loader : Handler := fun c => do
   let dyn ← getBool c "dynamic"
   let drop ← getBool c "drop"
   let sort ← getBool c "sort"
-  let orders ← getList (jsonToList jsonToNat) c "orders"
+  let cw ← getBool c "cw"
+  let mode ← getStr c "mode" >>= modeOf
+  let e0 ← getNat c "init_epoch"
+  let dist ← match fieldOpt c "dist" with
+    | none => pure none
+    | some v => do
+      match ← jsonToList jsonToNat v with
+      | [r, w] => pure (some (r, w))
+      | _ => throw "dist: expected [rank, world]"
+  let table ← getList (fun j => do
+    match j with
+    | .arr #[e, p] => do pure ((← jsonToNat e), (← jsonToList jsonToNat p))
+    | _ => throw "perms: expected [epoch, ordering]") c "perms"
+  let ops ← getList opOf c "ops"
+  let perm : Nat → List Nat := fun e => (dget table e).getD []
+  let cfg : LoaderCfg := ⟨lens, nb, B, dyn, drop⟩
   let params := if nb > 1 then paramsJ (bucketParams lens nb B dyn) else Json.null
-  match loaderBatches lens nb B dyn drop [] with
-  | .error e => pure (objJ [("err", strJ (errStr e))])
-  | .ok _ =>
-    let eps := orders.map (fun o =>
-      match loaderBatches lens nb B dyn drop o with
-      | .error e => objJ [("err", strJ (errStr e))]
-      | .ok (bs, e) =>
-        let rows := if sort then bs.map (sortDesc (fun i => lens.getD i 0)) else bs
-        objJ [("batches", batchesJ bs), ("rows", batchesJ rows), ("err", errJ e),
-              ("len", exceptNatJ (loaderLen lens nb B dyn drop o))])
-    pure (objJ [("epochs", Json.arr eps.toArray), ("params", params)])
+  match Loader.new cfg (samplerMode cw drop mode) dist e0 with
+  | none => pure (objJ [("err", strJ "ValueError")])
+  | some l =>
+    match loaderBatches lens nb B dyn drop [] with
+    | .error e => pure (objJ [("err", strJ (errStr e))])
+    | .ok _ =>
+      let (served, lfin) := Loader.exec perm ops l
+      let info := lensAlong perm ops l
+      let js := (served.zip info).map (fun (r, (e, ln, ln')) =>
+        let order := PdtVerif.EpochSampler.samples l.sampler.cfg (perm e)
+        match r with
+        | .error er => objJ [("epoch", natJ e), ("err", strJ (errStr er))]
+        | .ok (bs, er) =>
+          let rows := if sort then bs.map (sortDesc (fun i => lens.getD i 0)) else bs
+          objJ [("epoch", natJ e), ("order", listJ natJ order), ("batches", batchesJ bs),
+                ("rows", batchesJ rows), ("err", errJ er), ("len", exceptNatJ ln),
+                ("len_after", exceptNatJ ln')])
+      pure (objJ [("serves", Json.arr js.toArray), ("final_epoch", natJ lfin.epoch), ("params", params)])
 
 def getRows (j : Json) : Except String (List (List Int)) := jsonToList (jsonToList jsonToInt) j
 
@@ -105,8 +151,7 @@ def c14CollateLang : Handler := fun c => do
     pure (r, i)) c "items"
   let padRow := List.replicate w pad
   let (refs, sizes, ids) := langCollate padRow sort items
-  let s := if sort then sortDesc (fun it => it.1.length) items else items
-  pure (objJ [("refs", rows3J refs), ("refs_tf", rows3J (padSequenceTF padRow (s.map (·.1)))),
+  pure (objJ [("refs", rows3J refs), ("refs_tf", rows3J (langCollateTF padRow sort items).1),
     ("sizes", listJ natJ sizes), ("ids", listJ strJ ids),
     ("spec", objJ [("cut", rows3J (Spec.cutBack refs sizes)),
                    ("pad_ok", boolJ (Spec.padCellsOk padRow refs sizes))])])
@@ -133,13 +178,11 @@ def c14CollateSpect : Handler := fun c => do
   let padA := [pad]
   let padR := List.replicate W pad
   let b := spectCollate padF padA padR sort items
-  let s := if sort then sortDesc (fun it => it.feat.length) items else items
+  let tf := spectCollateTF padF padA padR sort items
   pure (objJ [("feats", rows3J b.feats), ("alis", optRows3J b.alis), ("refs", optRows3J b.refs),
     ("feat_sizes", listJ natJ b.featSizes), ("ref_sizes", optJ (listJ natJ) b.refSizes),
     ("ids", listJ strJ b.uttids),
-    ("feats_tf", rows3J (padSequenceTF padF (s.map (·.feat)))),
-    ("alis_tf", optRows3J ((allSome (s.map (·.ali))).map (padSequenceTF padA))),
-    ("refs_tf", optRows3J ((allSome (s.map (·.ref))).map (padSequenceTF padR))),
+    ("feats_tf", rows3J tf.feats), ("alis_tf", optRows3J tf.alis), ("refs_tf", optRows3J tf.refs),
     ("spec", objJ [("cut_feats", rows3J (Spec.cutBack b.feats b.featSizes)),
                    ("pad_ok", boolJ (Spec.padCellsOk padF b.feats b.featSizes))])])
 
